@@ -48,6 +48,10 @@ StepOK(r, cmds, steps, k, W) ==
       [] r = "C19.Resolve" ->
             /\ c.op = "resolve" /\ Has(before, NormName(c.name)) =>
                   s.code = 0 /\ OutLines(s.out)[1] = "Total: " \o NatStr(FileMinutes(before[NormName(c.name)]))
+            /\ c.op = "resolvemix" /\ Has(before, NormName(c.name)) =>
+                  s.code = 0 /\ OutLines(s.out)[1] = "Total: " \o NatStr(FileMinutes(Files[1]) + FileMinutes(before[NormName(c.name)]))
+            /\ c.op = "resolvemix2" /\ Has(before, NormName(c.name)) =>
+                  s.code = 0 /\ OutLines(s.out)[1] = "Total: " \o NatStr(FileMinutes(Files[2]) + FileMinutes(before[NormName(c.name)]))
             /\ c.op = "resolvedefault" /\ Has(before, "default") =>
                   s.code = 0 /\ OutLines(s.out)[1] = "Total: " \o NatStr(FileMinutes(before["default"]))
 
